@@ -4,7 +4,7 @@
 // program:   mutex <type> threads=<n> native=<0|1> ctor=<0|1 scoped_lock(m, write) constructor / destructor instead of acquire / release>
 //            t <i> <op> <op> ...
 // ops: A acquire-writer  a acquire-reader  T try-writer  t try-reader  (suffix ! = run the try solo)
-//      U upgrade  D downgrade  R release  W<k> work k points
+//      U upgrade  D downgrade  R release  W<k> work k points  S (holding a read lock) wait until a second reader is inside
 #include "oneapi/tbb/spin_mutex.h"
 #include "oneapi/tbb/spin_rw_mutex.h"
 #include "oneapi/tbb/queuing_mutex.h"
@@ -23,6 +23,15 @@ static bool has_native(int t) { return t == 0 || t == 1 || t == 4 || t == 5; }
 
 // ------------------------------------------------------------------ generator
 std::string h_gen(Src& s) {
+    if (drv_flag("--dgshare")) {
+        // directed: a writer downgrades and, still holding the read lock, waits until another reader is inside with it.  Only readers are waiting, so every
+        // reader-writer mutex has to admit them at the downgrade (a sleeping reader must be woken by it, not by the later release).
+        static const int RW[] = { 5, 5, 5, 1, 3, 7 }; int ty = RW[s.choose(6)]; int nt = s.range(2, 3);
+        std::string o = std::string("mutex ") + TYPES[ty] + " threads=" + std::to_string(nt) + " native=0 ctor=" + (s.coin(3) ? "1" : "0") + "\n";
+        o += "t 0 A W" + std::to_string(s.range(1, 40)) + " D S W" + std::to_string(s.range(0, 3)) + " R\n";
+        for (int t = 1; t < nt; t++) o += "t " + std::to_string(t) + " W" + std::to_string(s.range(0, 12)) + " a W" + std::to_string(s.range(0, 4)) + " R\n";
+        return o;
+    }
     int ty = (int)s.choose(8); if (drv_flag("--sleepy")) ty = s.flip() ? 4 : 5;   // tbb::mutex / tbb::rw_mutex: the types that put waiters to sleep
     int nt = s.range(2, 4); bool rw = is_rw(ty);
     bool native = has_native(ty) && s.flip();
@@ -61,7 +70,7 @@ static long n_waited = 0, n_overlap = 0, n_upg_true = 0, n_upg_false = 0, n_try_
 static int g_inside_acquire = 0, g_upgrading = 0; static bool g_fifo_ok = true;
 struct Req { int tid; bool write; uint64_t inv, q, grant; };
 static std::vector<Req> g_reqs;
-static int g_type; static bool g_native; static int g_has_updown = 0; static bool g_ctor = false; static long n_isw = 0;
+static int g_type; static bool g_native; static int g_has_updown = 0; static bool g_ctor = false; static long n_isw = 0, n_share_waits = 0; static int g_done_threads = 0, g_nthreads = 2;
 static std::vector<std::vector<std::string>> g_ops;
 
 static void enter(bool write, const char* how) {
@@ -146,12 +155,19 @@ template <class O> static void run_thread(O& o, int tid) {
             check_inside(true); g_writers--; g_readers++;   // readers may join from the moment downgrade starts
             o.down(0); hold = 1; e0 = g_epoch;
             check_inside(false);
+        } else if (c == 'S') {
+            // holding a read lock: wait until another reader shares it (or nobody else is left who could)
+            if (hold != 1) continue;
+            n_share_waits++;
+            vs_block_until([] { return g_readers >= 2 || g_done_threads >= g_nthreads - 1; });
+            check_inside(false);
         } else if (c == 'R') {
             if (!hold) continue;
             leave(hold == 2); o.rel(hold == 2); hold = 0;
         }
     }
     if (hold) { leave(hold == 2); o.rel(hold == 2); }
+    g_done_threads++;
 }
 
 template <class M> struct Ctx { M m; };
@@ -173,7 +189,7 @@ void h_run(Case& c) {
     int nt = 2; std::string ty;
     for (auto& l : c.lines) {
         auto w = split_ws(l);
-        if (w[0] == "mutex") { ty = w[1]; nt = (int)kvl(l, "threads", 2); g_native = kvl(l, "native", 0) != 0; g_ctor = kvl(l, "ctor", 0) != 0; }
+        if (w[0] == "mutex") { ty = w[1]; nt = (int)kvl(l, "threads", 2); g_nthreads = nt; g_native = kvl(l, "native", 0) != 0; g_ctor = kvl(l, "ctor", 0) != 0; }
         else if (w[0] == "t") { int t = atoi(w[1].c_str()); if ((int)g_ops.size() <= t) g_ops.resize(t + 1); g_ops[t].assign(w.begin() + 2, w.end()); }
     }
     g_ops.resize(nt);
@@ -205,7 +221,7 @@ void h_run(Case& c) {
     if (n_conc_upg) vs_stat_flag("concurrent_upgrade");
     if (fifo_pairs) vs_stat_flag("fifo_pair");
     if (n_upg_false) vs_stat_flag("upgrade_false");
-    if (n_try_fail) vs_stat_flag("try_failed"); if (g_ctor) vs_stat_flag("scoped_lock_constructor_form"); if (n_isw) vs_stat_flag("is_writer_checked");
+    if (n_try_fail) vs_stat_flag("try_failed"); if (n_share_waits) vs_stat_flag("downgraded_holder_waits_for_a_second_reader"); if (g_ctor) vs_stat_flag("scoped_lock_constructor_form"); if (n_isw) vs_stat_flag("is_writer_checked");
     vs_stat_flag(TYPES[g_type]);
     vs_stat_add("nt", (n_overlap > 0 && n_waited > 0) ? 1 : 0);
     vs_ok();
